@@ -416,6 +416,7 @@ def run(ctx):
         run_raw(ctx)
         run_strings(ctx)
     run_grader(ctx)
+    lib.repo_tests_under_monitor(ctx, 'C14', ['state'])
     if ctx.shard == 0:
         ctx.sample({'route': 'raw', 'op': '*', 'a': 'vector(3)', 'b': 'matrix(3,2)', 'expected': 'vector(2) = np.dot(a, b)'})
         ctx.sample({'route': 'string', 'string': 'u*v*w', 'expected': 'student-facing error (ambiguous triple product)'})
